@@ -29,8 +29,8 @@ def brace_follows(src, i, optional):
         # conservative: the optional group may not contain further brackets (whether an inner '[' nests depends
         # on whether it follows a command - that is C09's business, not a lexical question)
         j = src.find(']', i)
-        if j < 0 or '[' in src[i + 1:j] or '%' in src[i + 1:j]:
-            return False
+        if j < 0 or '[' in src[i + 1:j] or '%' in src[i + 1:j] or '\\' in src[i + 1:j]:
+            return False        # (a backslash: the ] found may belong to a \] token, which does not close the group)
         i = SPACER.match(src, j + 1).end()
     return i < len(src) and src[i] == '{'
 
